@@ -77,6 +77,12 @@ func runC01(c *Ctx) {
 		req("ephemeral-maturity-checked", V2T, "%T2%.SiacoinInputs[*].Parent.MaturityHeight", opNE, esce+".MaturityHeight", "an ephemeral parent's claimed maturity must equal the created element's", ctxEphemeral, fix),
 		req("ephemeral-siafund-rejected", V2T, "%CH%", opGE, "%NET%.HardforkV2.EphemeralOutputHeight", "from the fix height on, ephemeral siafund parents are not accepted at all (their claimed value is never checked)", ctxEphemeral),
 	}
+	// what an expiry forfeits is valid minus missed: never negative for a revised contract (same era gate)
+	for _, r := range c07Table() {
+		if r.ID == "v2-revision-missed-host-cap" || r.ID == "v2-new-contract-missed-host" || r.ID == "v2-renewal-contract-missed-host" {
+			eph = append(eph, r)
+		}
+	}
 	runGuardTable(c, "ephemeral-guard", ge, eph)
 	c.Min("ephemeral-guard", len(eph))
 	c01ValueSources(c, ge)
